@@ -107,7 +107,7 @@ structure LS (src : Bytes) (al : BP → Bool) (k ls : Nat) (sA sB : St) : Prop w
   rb : RI (quotePrefix src) sB.r ⟨k, ls + 2 * k, 0⟩
   n : StoreRel src sA.nodes sB.nodes
   c : CtxRelL sA.pc sB.pc
-  a : AInv al sA.pc
+  a : AInv al sA.pc sA.nodes
   strict : sA.pc.opened ≠ [] → sB.pc.blockOffset = sA.pc.blockOffset ∧ sB.pc.blockIndent = sA.pc.blockIndent
 
 theorem blockquoteContinue_marker {src k ls} (hl : LineAt src k ls) {sB : St}
